@@ -164,18 +164,24 @@ class Stats:
 _WORKER_FN = None
 
 
+class _BrokenMarker:
+    """Carries a harness fault out of a pool worker (a BaseException would kill the worker)."""
+
+    def __init__(self, msg):
+        self.msg = msg
+
+
 def _call(item):
     try:
         return _WORKER_FN(item)
-    except Broken:
-        raise
+    except Broken as err:
+        return _BrokenMarker(f"{err}\n{traceback.format_exc()}")
     except BaseException as err:  # pylint: disable=broad-except
-        raise Broken(
-            f"harness error in work item {str(item)[:200]!r}: {err!r}\n{traceback.format_exc()}"
-        ) from err
+        return _BrokenMarker(
+            f"harness error in work item {str(item)[:200]!r}: {err!r}\n{traceback.format_exc()}")
 
 
-def pmap(fn, items, nproc=None, chunksize=1):
+def pmap(fn, items, nproc=None, chunksize=1, maxtasksperchild=None):
     """
     Deterministic parallel map: ``fn(item) -> Stats`` for every item, merged in
     item order.  Uses fork so that tables built in the parent are shared.
@@ -187,11 +193,17 @@ def pmap(fn, items, nproc=None, chunksize=1):
     _WORKER_FN = fn
     if nproc <= 1 or os.environ.get("VERIF_SERIAL"):
         for it in items:
-            total.merge(_call(it))
+            res = _call(it)
+            if isinstance(res, _BrokenMarker):
+                raise Broken(res.msg)
+            total.merge(res)
         return total
     ctx = mp.get_context("fork")
-    with ctx.Pool(nproc) as pool:
+    with ctx.Pool(nproc, maxtasksperchild=maxtasksperchild) as pool:
         for st in pool.imap(_call, items, chunksize):
+            if isinstance(st, _BrokenMarker):
+                pool.terminate()
+                raise Broken(st.msg)
             total.merge(st)
     return total
 
